@@ -108,6 +108,7 @@ pub enum Op {
     Park,
     Unpark(usize),
     Spawn(usize),
+    SpawnOwn(usize, usize),
     Join(usize),
     Yield,
     Await(usize, i128, Ordering),
@@ -159,6 +160,8 @@ pub struct Cfg {
     pub max_branches: usize,
     pub max_threads: usize,
     pub max_perm: Option<usize>,
+    /// `max_duration` in milliseconds
+    pub max_dur: Option<u64>,
     pub interval: usize,
     pub explicit: bool,
     pub ty: Ty,
@@ -184,6 +187,7 @@ impl Default for Cfg {
             max_branches: 1000,
             max_threads: 5,
             max_perm: None,
+            max_dur: None,
             interval: 20000,
             explicit: false,
             ty: Ty::Usize,
@@ -297,6 +301,7 @@ fn parse_op(t: &[&str]) -> Option<Op> {
         ["park"] => Op::Park,
         ["unpark", t] => Op::Unpark(n(t)?),
         ["spawn", t] => Op::Spawn(n(t)?),
+        ["spawnown", t, h] => Op::SpawnOwn(n(t)?, n(h)?),
         ["join", t] => Op::Join(n(t)?),
         ["yield"] => Op::Yield,
         ["await", x, v, o] => Op::Await(n(x)?, i(v)?, ord(o)?),
@@ -366,6 +371,7 @@ fn parse_cfg(s: &str) -> Option<Cfg> {
             "maxth" => c.max_threads = n(v)?,
             "perm" => c.max_perm = opt_n(v)?,
             "intv" => c.interval = n(v)?,
+            "dur" => c.max_dur = Some(n(v)? as u64),
             "explicit" => c.explicit = n(v)? != 0,
             "ty" => c.ty = ty(v)?,
             "x" => c.n_atomics = n(v)?,
